@@ -76,7 +76,7 @@ Proof. exact utf8_take_prefix. Qed.
 Print Assumptions C13_utf8_prefix.
 
 (* the premise of abstracting from time in this property's model: the code it models waits, polls and gives up
-   exactly where the model says (primitive codes in Proofs/W_*.v); re-extracted from the source on every run *)
+   with exactly the kinds of primitives the model accounts for (codes in Proofs/W_*.v); re-extracted from the source on every run *)
 Require Import GV.Gen.Consts GV.Proofs.W_protocol GV.Proofs.W_client.
 Theorem C13_time_abstraction : waits_protocol = (@nil Z) /\ waits_client = (@nil Z).
 Proof. exact (conj w_protocol w_client). Qed.
